@@ -1,19 +1,17 @@
 """C03 — cancelable mode holds a trace until its root finishes, then delivers it whole."""
-import known as K
 import seqcheck
 import seqrun
 from props import c09
 
 
 def knobs(r, i):
-    return {"cancelable": True, "threads": 1 + i % 3, "cycle_density": 1 + i % 3, "exits": i % 3 == 0, "multi": i % 4 == 0, "unwinds": i % 3 == 1}
+    return {"cancelable": True, "threads": 1 + i % 3, "cycle_density": 1 + i % 3, "exits": i % 3 == 0, "multi": i % 4 == 0, "unwinds": i % 3 == 1, "stepped": i % 2 == 1}
 
 
 def run(v, tier, seed, replay):
-    cases, impl, model = seqcheck.run(v, tier, seed, replay, "C03", ["C03"], tree_oracles=["no_panic", "exactly_once", "tree"], knobs=knobs, known=K.d14_known("C03"),
-                 extra_cases=lambda r: [K.d14_case("C03", ["no_panic", "exactly_once"])],
+    cases, impl, model = seqcheck.run(v, tier, seed, replay, "C03", ["C03"], tree_oracles=["no_panic", "exactly_once", "tree"], knobs=knobs,
                  n_quick=(600, 100), n_thorough=(60000, 5000),
-                 assumptions=["cross-thread completeness relies on the drain being a consistent cut; the harness serialises operations and whole cycles, finer interleavings are open finding D4 (see C03_whole)"])
+                 assumptions=["cross-thread completeness relies on the two-pass drain with deferred commits and carried second-pass commands (defects D4, D14, repaired); cycles are run whole and step by step with operations of all threads in between"])
     if not replay and not v.violations:
         scen = {"big-trace-%d" % 1: c09.sc_big_trace(1), "recovery-%d" % 1: c09.sc_recovery(1)}
         tags = list(scen)
